@@ -30,15 +30,16 @@ import (
 )
 
 // Services are the service names (package "un").
-var Services = []string{"SvcA", "SvcB", "SvcC", "SvcD", "SvcE"}
+var Services = []string{"SvcA", "SvcB", "SvcC", "SvcD", "SvcE", "SvcF", "SvcG"}
 
 // Serves maps an owner to the services it serves ("B3alt" = B3 after its
 // service set changed).
 var Serves = map[string][]string{
-	"B1":    {"SvcA", "SvcB", "SvcD", "SvcS"},
-	"B2":    {"SvcA", "SvcE"},
-	"B3":    {"SvcB", "SvcC"},
-	"B3alt": {"SvcC"},
+	"B1": {"SvcA", "SvcB", "SvcD", "SvcS"},
+	"B2": {"SvcA", "SvcE"},
+	// SvcF and SvcG are declared in ONE proto file and served by one connection
+	"B3":    {"SvcB", "SvcC", "SvcF", "SvcG"},
+	"B3alt": {"SvcC", "SvcF", "SvcG"},
 	"local": {"SvcA"},
 }
 
@@ -72,10 +73,30 @@ func (l lister) GetServiceInfo() map[string]grpc.ServiceInfo {
 var (
 	once     sync.Once
 	World    *dyn.World
+	World2   *dyn.World // the schema as backend B2 was built with (fields declared in reverse order)
 	Backends map[string]*Backend
 	Unknown  *grpc.ClientConn // a connection that is never registered
 	LocalCnt atomic.Int64
 )
+
+// reordered returns a copy of f in which every message declares its fields in
+// reverse order.
+func reordered(f *descriptorpb.FileDescriptorProto) *descriptorpb.FileDescriptorProto {
+	f = proto.Clone(f).(*descriptorpb.FileDescriptorProto)
+	var walk func(ms []*descriptorpb.DescriptorProto)
+	walk = func(ms []*descriptorpb.DescriptorProto) {
+		for _, m := range ms {
+			if !m.GetOptions().GetMapEntry() {
+				for i, j := 0, len(m.Field)-1; i < j; i, j = i+1, j-1 {
+					m.Field[i], m.Field[j] = m.Field[j], m.Field[i]
+				}
+			}
+			walk(m.NestedType)
+		}
+	}
+	walk(f.MessageType)
+	return f
+}
 
 func svcFile(path string, names ...string) *descriptorpb.FileDescriptorProto {
 	var svcs []*descriptorpb.ServiceDescriptorProto
@@ -171,7 +192,16 @@ func LocalDesc() *grpc.ServiceDesc {
 func Setup() {
 	once.Do(func() {
 		var err error
-		World, err = dyn.NewWorld(uni.BaseFile(), svcFile("svca.proto", "SvcA"), svcFile("svcb.proto", "SvcB"), svcFile("svcc.proto", "SvcC"), svcFile("svcde.proto", "SvcD", "SvcE"), multiFile(), streamFile())
+		files := func() []*descriptorpb.FileDescriptorProto {
+			return []*descriptorpb.FileDescriptorProto{svcFile("svca.proto", "SvcA"), svcFile("svcb.proto", "SvcB"), svcFile("svcc.proto", "SvcC"), svcFile("svcde.proto", "SvcD", "SvcE"), svcFile("svcfg.proto", "SvcF", "SvcG"), multiFile(), streamFile()}
+		}
+		World, err = dyn.NewWorld(append([]*descriptorpb.FileDescriptorProto{uni.BaseFile()}, files()...)...)
+		if err != nil {
+			panic(err)
+		}
+		// B2 is "another build" of the same schema: identical field numbers and types, but the
+		// messages declare their fields in the opposite order (legal, wire compatible).
+		World2, err = dyn.NewWorld(append([]*descriptorpb.FileDescriptorProto{reordered(uni.BaseFile())}, files()...)...)
 		if err != nil {
 			panic(err)
 		}
@@ -179,6 +209,10 @@ func Setup() {
 		for _, name := range []string{"B1", "B2", "B3"} {
 			b := &Backend{Name: name}
 			b.Srv = grpc.NewServer()
+			World := World
+			if name == "B2" {
+				World = World2
+			}
 			reg := map[string]bool{}
 			for _, key := range []string{name, name + "alt"} {
 				for _, s := range Serves[key] {
